@@ -30,10 +30,10 @@ def render(toks, rng, style):
         elif style == 4:
             # comments and line ends in the three conventions: LF, CR LF, and a bare CR
             out.append(t)
-            out.append(rng.choice([" ", "\r", "\r\n", " # a comment < L > \r", " # c \r\n", "   # x\r\t", " # y\n"]))
+            out.append(rng.choice([" ", "\r", "\r\n", " # a comment < L > \r", " # c \r\n", "   # x\r\t", " # y\n", "# glued to the token\r", "#\r\n"]))
         else:
             out.append(t)
-            out.append(rng.choice([" ", "\n", " # a comment < L > \n", "   # x\n\t"]))
+            out.append(rng.choice([" ", "\n", " # a comment < L > \n", "   # x\n\t", "# a comment right after the token\n", "#\n"]))
     text = "".join(out)
     if style == 3:
         # compact: no space around brackets
@@ -67,6 +67,13 @@ def real_shape(obj, key=None):
     return {"k": "item", "key": key if key is not None else name, "sub": []}
 
 
+def safe_shape(obj):
+    try:
+        return real_shape(obj)
+    except Exception as exc:  # noqa: BLE001
+        return f"<structure that cannot be walked: {exc!r}>"
+
+
 def strip_top(s):
     """The key of the outermost structure is not part of the documented shape."""
     return {"k": s["k"], "sub": [norm(x) for x in s["sub"]]}
@@ -86,6 +93,69 @@ def norm_inner(s, parent_kind):
 
 def top(s):
     return {"k": s["k"], "key": "*", "sub": [norm_inner(x, s["k"]) for x in s["sub"]]}
+
+
+def layout_leg(ctx, wd, defs, rng, generate):
+    """Lexical level: SfdlLex (the tokenizer's character loop against the documented rules, all texts up to 7 (8) characters)
+    and every separator text of up to 3 (4) characters the documented rules allow between two tokens (SfdlSep), placed at
+    every gap of real definitions."""
+    n_chars = 7 if ctx.quick else 8
+    cfg = "SPECIFICATION Spec\nCONSTANTS CommentEndSeparates = {}\n N = {}\nINVARIANT LexAsDocumented\nINVARIANT NoCommentCharInToken\n"
+    r1 = tlc.run("SfdlLex", cfg_text=cfg.format("TRUE", n_chars), workdir=wd, what="lex", timeout=1800, deadlock=False)
+    tlc.require_ok(r1, "SfdlLex")
+    ctx.add_tlc(r1, f"tokenizer character loop vs documented lexical rules: every text of up to {n_chars} characters over name char / blank / line break / # / < / >")
+    r2 = tlc.run("SfdlLex", cfg_text=cfg.format("FALSE", 5), workdir=wd, what="lex_witness", timeout=600, deadlock=False, expect_error=True)
+    ctx.add_tlc(r2, "regression witness: the line break ending a comment swallowed with it -> a name before the comment runs on into the next line")
+    if r2.error_kind != "invariant":
+        raise Machinery(f"SfdlLex regression witness no longer fails ({r2.error_kind})")
+    rs = tlc.run("SfdlSep", cfg_text=f"SPECIFICATION Spec\nCONSTANTS CommentEndSeparates = TRUE\n N = 0\n K = {3 if ctx.quick else 4}\n", workdir=wd, workers=1,
+                 what="separators", timeout=1800, deadlock=False, coverage=False)
+    tlc.require_ok(rs, "SfdlSep")
+    seps = {(x["a"], x["b"]): ["".join(q) for q in x["seps"]] for x in rs.tagged("SEP")}
+    if len(seps) != 9 or min(len(v) for v in seps.values()) < 20:
+        raise Machinery(f"separator vectors incomplete: { {k: len(v) for k, v in seps.items()} }")
+    picks = []
+    for want_len, need in ((3, None), (6, None), (7, "NAMED"), (10, "NAMED"), (12, "DATA"), (14, None), (15, "NAMED")):
+        d = next((d for d in defs if len(d["toks"]) >= want_len and (need is None or need in d["toks"]) and d not in picks), None)
+        if d is not None:
+            picks.append(d)
+    if len(picks) < 5:
+        raise Machinery("no definitions to lay out")
+
+    def cls(t):
+        return t if t in "<>" else "w"
+
+    def real_text(sep):
+        out = []
+        for ch in sep:
+            out.append({"n": rng.choice(["\n", "\r\n", "\r"]), " ": rng.choice([" ", "\t"]), "w": rng.choice(["x", "L", "9"]), "<": rng.choice("<>"), "#": "#"}[ch])
+        return "".join(out)
+
+    count = 0
+    for d in picks:
+        toks = d["toks"]
+        want = top(d["shape"])
+        for g in range(len(toks) - 1):
+            for sep in seps[(cls(toks[g]), cls(toks[g + 1]))]:
+                parts = []
+                for i, t in enumerate(toks):
+                    parts.append(t)
+                    if i < len(toks) - 1:
+                        parts.append(real_text(sep) if i == g else " ")
+                text = "".join(parts)
+                count += 1
+                try:
+                    got = top(real_shape(generate(text)))
+                except Exception as exc:  # noqa: BLE001
+                    ctx.violation({"check": "sfdl-layout", "clause": "well-formed-definition-rejected", "text": text, "separator": sep, "gap": [toks[g], toks[g + 1]],
+                                   "what": f"definition {' '.join(toks)!r} with {real_text(sep)!r} (documented: reads as nothing) between {toks[g]!r} and {toks[g + 1]!r} raised {exc!r}"})
+                    continue
+                if got != want:
+                    ctx.violation({"check": "sfdl-layout", "clause": "shape-differs", "text": text, "separator": sep, "gap": [toks[g], toks[g + 1]], "got": got, "want": want,
+                                   "what": f"definition {' '.join(toks)!r} with separator {sep!r} between {toks[g]!r} and {toks[g + 1]!r} is read as {json.dumps(got)[:160]}"})
+    ctx.extra["layout_texts"] = count
+    ctx.extra["separators_per_token_pair"] = {f"{a} {b}": len(v) for (a, b), v in seps.items()}
+    return count
 
 
 def run(ctx: Ctx):
@@ -138,8 +208,9 @@ def run(ctx: Ctx):
                     # rejected, though not with the documented error class: still "rejected with an error"
                     continue
                 ctx.violation({"check": "sfdl-reject", "clause": "missing-closing-bracket-accepted" if kind == "close" else "unknown-item-accepted",
-                               "text": text, "what": f"malformed definition {' '.join(toks)!r} ({kind}) was accepted: {real_shape(obj)}"})
-    ctx.evaluations += n + nrej
+                               "text": text, "what": f"malformed definition {' '.join(toks)!r} ({kind}) was accepted: {safe_shape(obj)}"})
+    nlay = layout_leg(ctx, wd, defs, rng, generate)
+    ctx.evaluations += n + nrej + nlay
     ctx.nontrivial += len(defs) + nrej
     ctx.traces += n + nrej
     ctx.sample({"tokens": defs[700]["toks"], "documented_shape": defs[700]["shape"]})
@@ -147,6 +218,7 @@ def run(ctx: Ctx):
     ctx.exhaustive = True
     ctx.rule = ("definitions = every tree of depth <= 3 (width 3 at depth 2, width 2 at depth 3) over 4 data item names with/without list "
                 "names, distinct member keys (1884), each in 2-5 text layouts (white space, newlines, comments ended by LF / CR LF / bare CR, compact); mutants = every "
-                "single missing '>' and every single unknown item name of the depth-2 and unnamed depth-3 definitions")
+                "single missing '>' and every single unknown item name of the depth-2 and unnamed depth-3 definitions; lexical level: TLC on the tokenizer's character loop (all texts up to 7 / 8 characters) and "
+                "every separator of up to 3 / 4 characters the documented rules allow (SfdlSep: 24 per token pair) at every gap of 7 definitions")
     ctx.assumptions += ["the generator stays inside what the document defines (no empty lists, distinct member keys, upper-case L)"]
     return ctx.finish()
